@@ -60,7 +60,7 @@ ASSUMPTIONS = [
 
 def base_facts(case, spec: Spec) -> Dict[str, Any]:
     return {"shape": spec.name, "aligned": bool(case["place"].get("aligned")), "chop_mode": case["chops"]["mode"],
-            "moved": case.get("post") is not None}
+            "moved": case.get("post") is not None, "mirrored": bool((case.get("post") or {}).get("mirror"))}
 
 
 def run_spec(case, ctx: Ctx, build) -> None:
@@ -120,6 +120,8 @@ def run_spec(case, ctx: Ctx, build) -> None:
         xs.check_jacobians(dec.pos, dec.hexes, facts)
         arcs = xs.check_circles(dec, spec.circles, facts)
         side = xs.check_revolve_arcs(dec, spec.revolves, spec.size, facts)
+        if spec.outlines:
+            ctx.label("outline-edges-checked" if xs.check_outlines(dec, spec.outlines, facts) else "outline-edges-none")
         xs.check_shared_edge_counts(dec, facts)
         ctx.label("written", f"arcs-checked={'0' if arcs == 0 else '>0'}")
         if spec.revolves:
@@ -132,6 +134,8 @@ def run_spec(case, ctx: Ctx, build) -> None:
     ctx.label("moved-after-construction" if post is not None else "as-constructed")
     if post is not None:
         ctx.label("post-scaled" if post.get("scale") else "post-rigid")
+        if post.get("mirror"):
+            ctx.label("post-mirrored")
     ctx.label(f"far-ratio={xs.far_ratio(case):.0e}" if xs.far_ratio(case) else "near-origin")
     ctx.label("minJ<0.03" if worst < 0.03 else "minJ<0.1" if worst < 0.1 else "minJ>=0.1")
     for lb in spec.extra.get("labels", []):
@@ -568,7 +572,8 @@ def build_chain(case):
 
 
 def check_chain(case, ctx: Ctx) -> None:
-    facts = {"shape": "chain", "start": case["start"]["cls"], "ops": [s["op"] for s in case["steps"]]}
+    facts = {"shape": "chain", "start": case["start"]["cls"], "ops": [s["op"] for s in case["steps"]],
+             "source_mirrored": bool((case.get("pre") or {}).get("mirror"))}
     try:
         shapes, interfaces = build_chain(case)
     except Exception as ex:  # noqa: BLE001
@@ -648,6 +653,8 @@ def check_chain(case, ctx: Ctx) -> None:
     for key in ("pre", "post"):
         if case.get(key) is not None:
             ctx.label(f"{key}-moved", f"{key}-scaled" if case[key].get("scale") else f"{key}-rigid")
+            if case[key].get("mirror"):
+                ctx.label(f"{key}-mirrored")
     ctx.label(f"shapes={len(shapes)}", "general" if general else "aligned",
               "moved-after-construction" if post is not None else "as-constructed",
               f"far-ratio={xs.far_ratio(case):.0e}" if xs.far_ratio(case) else "near-origin")
@@ -655,9 +662,12 @@ def check_chain(case, ctx: Ctx) -> None:
         ctx.label("step:" + s["op"] + ("@start" if s["where"] == "start" else ""))
 
 
-def chain_strategy(start_kinds, witness=False):
+def chain_strategy(start_kinds, witness=False, mirrored_source=False):
+    # chaining onto a mirrored source is a confirmed finding (known/C11.json, C11-N3): it has its own witness cell and is
+    # excluded here by construction; mirroring the finished chain (post) stays in
+    pre = xs.post_transforms(resize_mostly=True, mirror="always" if mirrored_source else "never")
     return st.tuples(chain_cases(start_kinds, witness), xs.placements(), xs.post_transforms(), xs.far_offsets(),
-                     xs.far_offsets(), xs.post_transforms(resize_mostly=True)).map(
+                     xs.far_offsets(), pre).map(
         lambda t: xs.settle_far({**t[0], "place": t[1], "post": t[2], "pre": t[5]}, t[3], t[4]))
 
 
@@ -696,5 +706,8 @@ CELLS.append(Cell("C11/chain/solid", chain_strategy(["Cylinder", "Frustum", "Elb
                   "Jacobians, connectivity, each new shape shares exactly the interface vertices with its source"))
 CELLS.append(Cell("C11/chain/ring", chain_strategy(["ExtrudedRing"]), check_chain, 30, 1000,
                   "ExtrudedRing followed by <= 3 chain / expand / contract / fill steps: as above with 2 n interface vertices"))
+CELLS.append(Cell("C11/chain/witness-mirrored-source",
+                  chain_strategy(["Cylinder", "Frustum", "Elbow", "ExtrudedRing"], mirrored_source=True), check_chain, 8, 150,
+                  "a shape that was mirrored (shape.mirror) and then used as the source of chain / expand / contract / fill"))
 CELLS.append(Cell("C11/chain/witness-elbow-start", chain_strategy(["Cylinder", "Frustum", "Elbow"], witness=True),
                   check_chain, 6, 100, "Elbow.chain(start_face=True) continuing away from the source (regression witness)"))
